@@ -42,6 +42,10 @@ pub fn needles() -> Vec<Value> {
             v.push(Value::Object(m));
         }
     }
+    // a non-number leaf next to a number in two spellings: structural equality compares leaf by leaf
+    for t in [r#"["a",1.0]"#, r#"["a",1]"#, "[-0.0,true]", "[0,true]", r#"{"k":"v","n":1.0}"#, r#"{"n":1,"k":"v"}"#, "[null,2.0]", "[null,2]", r#"[[1.0,"x"],"y"]"#, r#"[[1,"x"],"y"]"#] {
+        v.push(al::parse(t));
+    }
     v.push(json!({"id": 7, "name": "x"}));
     v.push(json!({"id": 7, "nickname": null}));
     v.push(json!([null]));
